@@ -8,7 +8,11 @@ import (
 	"math/rand"
 	"sort"
 	"strings"
+	"sync"
 	"time"
+
+	enginehash "github.com/ryogrid/SamehadaDB/lib/container/hash"
+	"github.com/ryogrid/SamehadaDB/lib/types"
 
 	"verifharness/internal/core"
 	"verifharness/internal/gen"
@@ -384,6 +388,13 @@ func c11Run(env *core.Env, idx int) *core.CaseResult {
 	apiVals := r.Intn(4) == 0
 	apiNoNull := apiVals && r.Intn(2) == 0    // API-only values without NULLs (NULL join keys / NULLs in indexed columns are listed findings)
 	signedZeros := !apiVals && r.Intn(4) == 0 // float columns hold +0.0 and -0.0 (no NULLs, nothing else beyond the literal forms)
+	// every sixth case: INT and VARCHAR cells are drawn half of the time from pairs of DIFFERENT values with the SAME 32-bit hash
+	// (found by a birthday search with the engine's own hash function - input selection only): in a hash join they share a bucket
+	collide := idx%6 == 4 && !big
+	if collide {
+		c11FindCollisions()
+		res.Add("cases_with_join_keys_of_equal_hash", 1)
+	}
 	for i := 0; i < nt; i++ {
 		nc := 1 + r.Intn(4)
 		t := &rm.Table{Name: string(rune('p' + i))}
@@ -434,6 +445,12 @@ func c11Run(env *core.Env, idx int) *core.CaseResult {
 					row[c] = rm.Int(int32(r.Intn(keySpace))) // q: mostly unique join keys with duplicates and misses; p: every key several times
 				} else if big && t.Cols[c].Name == "ppad" {
 					row[c] = rm.Str(fmt.Sprintf("r%d.", k) + strings.Repeat(string(rune('a'+r.Intn(26))), 80+r.Intn(70)))
+				} else if collide && t.Cols[c].K == rm.KInt && len(c11CollInts) > 0 && r.Intn(2) == 0 {
+					pr := c11CollInts[r.Intn(min(3, len(c11CollInts)))]
+					row[c] = rm.Int(pr[r.Intn(2)])
+				} else if collide && t.Cols[c].K == rm.KStr && len(c11CollStrs) > 0 && r.Intn(2) == 0 {
+					pr := c11CollStrs[r.Intn(min(3, len(c11CollStrs)))]
+					row[c] = rm.Str(pr[r.Intn(2)])
 				} else if t.Cols[c].K == rm.KInt && r.Intn(2) == 0 {
 					row[c] = rm.Int(int32(r.Intn(8))) // dense join keys: duplicates and misses
 				} else if t.Cols[c].K == rm.KFloat && signedZeros && r.Intn(4) == 0 {
@@ -539,4 +556,37 @@ func c11Run(env *core.Env, idx int) *core.CaseResult {
 	}
 	res.Key = fmt.Sprintf("c11-%d-%s", idx, qs[0].sql)
 	return res
+}
+
+var (
+	c11CollOnce sync.Once
+	c11CollInts [][2]int32
+	c11CollStrs [][2]string
+)
+
+// c11FindCollisions: pairs of different INT / VARCHAR values whose engine hash (hash.HashValue, 32 bits) is equal.
+func c11FindCollisions() {
+	c11CollOnce.Do(func() {
+		seen := map[uint32]int32{}
+		for i := int32(0); i < 400000 && len(c11CollInts) < 6; i++ {
+			v := types.NewInteger(i)
+			h := enginehash.HashValue(&v)
+			if j, ok := seen[h]; ok {
+				c11CollInts = append(c11CollInts, [2]int32{j, i})
+			} else {
+				seen[h] = i
+			}
+		}
+		seenS := map[uint32]string{}
+		for i := 0; i < 400000 && len(c11CollStrs) < 6; i++ {
+			str := fmt.Sprintf("key%d", i)
+			v := types.NewVarchar(str)
+			h := enginehash.HashValue(&v)
+			if j, ok := seenS[h]; ok {
+				c11CollStrs = append(c11CollStrs, [2]string{j, str})
+			} else {
+				seenS[h] = str
+			}
+		}
+	})
 }
